@@ -11,7 +11,8 @@ MANIFEST = dict(
          "matrices obtained from the boundary matrix by left-to-right column operations have the same pivots (lows_unique) and the executable "
          "reduction is certified by a verified checker on every input it is used on; (ii) the algorithm model of Persistent_cohomology.h "
          "(uncompressed annotation matrix, elder rule with ties for H0, signed boundary annotation, highest-key pivot, column update, "
-         "Field_Zp arithmetic as verified under C10, both orders of endpoints()) pairs every simplex at most once, birth before death, "
+         "Field_Zp arithmetic as verified under C10, both orders of endpoints()) pairs every simplex at most once (exactly once below "
+         "dim_max when the minimal length discards nothing), birth before death, "
          "dim(death)=dim(birth)+1, keeps every coordinate of the annotation matrix a cocycle of the current complex and every annotation "
          "supported on live classes of its own dimension with the killed pivot gone from every column (for Multi_field, and any coefficient "
          "structure, the order and dimension clause is proved as well); (iii) betti_numbers / "
@@ -351,7 +352,7 @@ def generate(rng, tier):
     if thorough:
         reps = _EXH.get("reps4") or orbit_representatives(4, 3, ex4)
         _EXH["reps4"] = reps
-        pick = reps + rng.sample(ex4, 12000)
+        pick = reps + rng.sample(ex4, 8000)
     else:
         pick = rng.sample(ex4, 400)
     for i, c in enumerate(pick):
@@ -364,7 +365,7 @@ def generate(rng, tier):
         c, which = gen_torsion_complex(rng, opt == "P", first[i] if i < len(first) else None)
         cases.append(dict(opt=opt, simplices=c, origin="torsion:" + which))
     # random complexes
-    nrand = 5000 if thorough else 500
+    nrand = 4000 if thorough else 500
     for i in range(nrand):
         opt = "DFPH"[i % 4]
         cases.append(dict(opt=opt, simplices=gen_random_complex(rng, opt == "P"), origin="random"))
@@ -631,7 +632,7 @@ def check(ctx, replay=None):
     res.samples = [{"opt": c["opt"], "simplices": c["simplices"][:14], "configs": c["configs"]} for c in rs[:4] if "simplices" in c] + \
                   [case_data(c) for c in cases if is_cubical(c)][:2]
     res.notes.append("exhaustive sub-domain: every filtered complex on <= 3 vertices with <= 3 distinct values; on 4 vertices %s of the %d"
-                     % (("one representative of each of the %d orbits under vertex relabelling plus a random sample of 12000" % len(_EXH.get("reps4", [])))
+                     % (("one representative of each of the %d orbits under vertex relabelling plus a random sample of 8000" % len(_EXH.get("reps4", [])))
                         if ctx.tier == "thorough" else "a random sample of 400", len(_EXH.get(4, []))))
     res.notes.append("the equality 'pairs of the cohomology algorithm = pairs of the boundary-matrix reduction' (C02_pcoh_full, C02_multifield_full) is "
                      "measured on every run above for the extracted model and for the C++; it is not a Coq theorem")
